@@ -325,7 +325,10 @@ impl MachineState {
     pub(super) fn set_ball(&mut self) {
         self.ball.reset();
 
-        let addr = self.registers[1];
+        // The ball is copied at the time of the throw (ISO 7.8.9). The argument register may
+        // hold a reference to a permanent variable in a caller's frame; copying that cell
+        // without dereferencing it yields a fresh unbound variable instead of the ball.
+        let addr = self.store(self.deref(self.registers[1]));
 
         self.ball.boundary = self.heap.cell_len();
         self.ball.pstr_boundary = step_or_resource_error!(
